@@ -206,7 +206,8 @@ pub const A_SPLICE: u8 = 4;
 pub const A_NL: u8 = 8;
 /// `// ...` in front of an existing newline / the end of the file
 pub const A_EOLC: u8 = 16;
-/// start of a directive line: whole extra lines may precede it, then only spaces and tabs before the `#`
+/// start of a directive line: whole extra lines may precede it, then blanks, block comments and splices before the `#`
+/// (no `//` comment on the directive's own line: it would swallow the directive)
 pub const A_LINES_THEN_SPACE: u8 = 32;
 
 #[derive(Clone, Debug)]
@@ -564,6 +565,11 @@ pub fn trivia_for(rng: &mut Rng, p: &Point, only: Option<TK>, nl: &str) -> Optio
             Some(TK::Tab) => return Some(("\t".into(), "tab-before-#")),
             Some(TK::BlankLine) => return Some((nl.to_string(), "line-before-directive")),
             Some(TK::LineComment) => return Some((format!("//{}{}", rng.pick(LINE_WORDS), nl), "line-before-directive")),
+            // a comment is one space and a splice joins two physical lines before directives are recognised (C translation
+            // phases 2 and 3 come before phase 4): both may stand between the start of the line and the `#`
+            Some(TK::Block) => return Some((one_trivia(rng, TK::Block, nl), "block-comment-before-#")),
+            Some(TK::BlockMultiLine) => return Some((one_trivia(rng, TK::BlockMultiLine, nl), "multi-line-block-comment-before-#")),
+            Some(TK::Splice) => return Some((one_trivia(rng, TK::Splice, nl), "splice-before-#")),
             Some(_) => return None,
             None => {}
         }
@@ -572,7 +578,10 @@ pub fn trivia_for(rng: &mut Rng, p: &Point, only: Option<TK>, nl: &str) -> Optio
             s.push_str(&whole_line(rng, nl));
         }
         if s.is_empty() || rng.chance(1, 2) {
-            s.push_str(if rng.chance(1, 3) { "\t" } else { "  " });
+            for _ in 0..1 + rng.below(2) {
+                let k = *rng.pick(&[TK::Space, TK::Space, TK::Tab, TK::Block, TK::BlockMultiLine, TK::Splice]);
+                s.push_str(&one_trivia(rng, k, nl));
+            }
         }
         return Some((s, "lines-before-directive"));
     }
